@@ -86,14 +86,33 @@ def check_c13(case, ctx):
 
 STRAT = gen.games(max_teams=5, max_size=3)
 
+
+def fuzz_custom(ctx, seed, tier, shard, nshards, n):
+    from vf.fuzz.harness import fuzz_clause
+
+    # even shards: empty corpus; odd shards: a few fixed byte patterns long enough to decode into every site
+    corpus = [] if shard % 2 == 0 else [bytes((k * m + 7) % 256 for k in range(96)) for m in (1, 3, 5, 7, 11, 13, 17, 19, 23)]
+    ctx.label("corpus:" + ("patterns" if corpus else "empty"))
+    fuzz_clause(ctx, "vf.fuzz.c13_target", n, seed, f"c13-{shard}", corpus, max_len=256)
+
+
+def check_fuzzcase(case, ctx):
+    from vf.fuzz.c13_target import check
+
+    check(case, ctx)
+
 PROPERTY = Property(
     pid="C13",
     level="fault_enumeration",
     clauses=[
-        Clause(name="fault-enumeration", strategy=STRAT, check=check_c13, quick=320, thorough=6000,
+        Clause(name="fault-enumeration", strategy=STRAT, check=check_c13, quick=1600, thorough=24000,
                rule="one generated valid call (2..5 teams x 1..3 players, any outcome encoding / options); ALL sites x fault kinds of the grammar enumerated on it "
                     "for rate and the three predicts (100-400 faulty calls per case); non-trivial = the case contains faults at depth >= 2 (player slot, "
                     "element of ranks/scores) or foreign-model ratings (always true for rate)"),
+        Clause(name="atheris-garbage", kind="custom", custom=fuzz_custom, check=check_fuzzcase, quick=10000, thorough=800000, shards_quick=2, shards_thorough=16,
+               rule="coverage-guided libFuzzer campaign: a byte-chosen site of a small valid call receives an object built from a grammar (None, bool, int, float, "
+                    "str, bytes, own / foreign ratings, object(), nested list / tuple / set / dict); the target's own predicate decides well-formedness; "
+                    "non-trivial = nested site or structured / foreign garbage"),
     ],
     rule="generated valid calls x exhaustive enumeration of the malformed-argument grammar (wrong container at each nesting level, too few teams, empty team, "
          "non-rating / foreign-model players at every slot, wrong-length / non-numeric ranks and scores at every position, both selectors); oracle: exception type "
